@@ -65,6 +65,26 @@ static Reg r_b64_dec("b64.dec", [](const std::vector<std::string> &a) -> std::st
   return "ok " + hex(out);
 });
 
+// b64.decseq <hex> <hex> ...: the documents are decoded one after the other into the SAME std::string, as the tools do
+// (base64_number, b64filter, remove_invalid_utf8_base64 keep one buffer for the whole run); one result per document
+static Reg r_b64_decseq("b64.decseq", [](const std::vector<std::string> &a) -> std::string {
+  std::string out, res;
+  for (size_t i = 0; i < a.size(); ++i) {
+    std::string bs;
+    if (!unhex(a[i], bs)) return "bad-op";
+    if (i) res += " ; ";
+    try {
+      preprocess::base64_decode(bs, out);
+      res += "ok " + hex(out);
+    } catch (const util::Exception &) {
+      res += "ERR:notb64";
+    } catch (const std::length_error &) {
+      res += "ERR:length";
+    }
+  }
+  return res.empty() ? "-" : res;
+});
+
 // ---------------------------------------------------------------- murmur (C14)
 #include "util/murmur_hash.hh"
 static std::string murmur_op(const std::vector<std::string> &a, bool native) {
